@@ -495,7 +495,8 @@ pub fn explore_bounds(
     let lc = last_col.0.lock().unwrap();
     let violations: Vec<(Violation, u64)> = col.0.lock().unwrap().violations.values().cloned().collect();
     let distinct_outcomes = lc.outcomes.len() as u64;
-    let suspicious = if suspicious_if_single && distinct_outcomes <= 1 && total.executions > 1 { Some("one outcome from many executions: nothing collided?".to_string()) } else { None };
+    // vacuity warning: several threads, many executions, yet no two calls ever overlapped and nothing varied
+    let suspicious = if suspicious_if_single && distinct_outcomes <= 1 && lc.nontrivial.is_empty() && total.executions > 1 { Some("one outcome and no overlapping history from many executions: nothing collided?".to_string()) } else { None };
     ScenarioResult {
         name: name.to_string(),
         engine: "ilv",
